@@ -12,6 +12,9 @@ else:
     if s.count(old) != 1:
         print('pattern occurs %d times' % s.count(old)); sys.exit(2)
     open(p, 'w').write(s.replace(old, new))
+import shutil, tempfile
+backup = tempfile.mkdtemp(prefix='ev_')
+shutil.copytree('/verif/evidence', backup + '/evidence')
 try:
     for pr in props:
         r = subprocess.run(['./check', pr] + (['--tier', os.environ['TIER']] if os.environ.get('TIER') else []), cwd='/verif', capture_output=True, text=True)
@@ -19,3 +22,4 @@ try:
         print('exit', r.returncode, '|', ' || '.join(lines)[:900])
 finally:
     subprocess.check_call(['git', '-C', '/repo', 'checkout', '--', '.'])
+    shutil.rmtree('/verif/evidence'); shutil.copytree(backup + '/evidence', '/verif/evidence'); shutil.rmtree(backup)
